@@ -24,21 +24,27 @@ JANET = r'''
   (def dlog @[])
   (def wlog @[])
   (def out @[])
-  (each op toks
+  (each op0 toks
+    # burst: `op+ op+ ... op!` - the fibers of a burst start without pre-sleep, so their channel operations run back to back in
+    # ONE run phase of the loop (the self pipe is not polled in between); one observation after the `!` op
+    (def burst (string/has-suffix? "+" op0))
+    (def nosleep (or burst (string/has-suffix? "!" op0)))
+    (def op (if nosleep (string/slice op0 0 -2) op0))
     (def k (string/slice op 0 1))
     (case k
       # fibers sleep a different number of turns first, so that their sched_id counters differ
       "g" (let [[fs x] (string/split ":" (string/slice op 1)) f (scan-number fs)]
-            (put fibers f (ev/spawn (repeat (% f 3) (ev/sleep 0)) (try (do (ev/give c (scan-number x)) (array/push glog f)) ([e] nil)))))
+            (put fibers f (ev/spawn (repeat (if nosleep 0 (% f 3)) (ev/sleep 0)) (try (do (ev/give c (scan-number x)) (array/push glog f)) ([e] nil)))))
       "t" (let [f (scan-number (string/slice op 1))]
-            (put fibers f (ev/spawn (repeat (% f 2) (ev/sleep 0))
+            (put fibers f (ev/spawn (repeat (if nosleep 0 (% f 2)) (ev/sleep 0))
                             (try (let [v (ev/take c)] (if (nil? v) (array/push wlog f) (array/push dlog [f v]))) ([e] nil)))))
       "a" (let [fb (get fibers (scan-number (string/slice op 1)))] (if (and fb (fiber/can-resume? fb)) (ev/cancel fb "abandon")))
       "c" (ev/chan-close c))
-    (repeat 16 (ev/sleep 0))
-    (array/push out (string (ev/count c) " d=" (string/join (map (fn [[f v]] (string f ":" v)) dlog) ",")
-                            " w=" (string/join (map string (sort (array/slice wlog))) ",")
-                            " g=" (string/join (map string (sort (array/slice glog))) ","))))
+    (unless burst
+      (repeat 16 (ev/sleep 0))
+      (array/push out (string (ev/count c) " d=" (string/join (map (fn [[f v]] (string f ":" v)) dlog) ",")
+                              " w=" (string/join (map string (sort (array/slice wlog))) ",")
+                              " g=" (string/join (map string (sort (array/slice glog))) ",")))))
   (print (string/join out " ; "))
   # release whoever still waits so the loop can end
   (ev/chan-close c)
@@ -57,6 +63,14 @@ def corpus_sequences():
         ["L0", "g1:10", "g2:20", "g4:30", "a1", "a2", "t5", "t6", "t7"],
         ["L1", "g1:10", "g2:20", "g3:30", "g4:40", "a2", "a3", "t5", "t6", "c"],
         ["L2", "g1:1", "g2:2", "g3:3", "g5:4", "a3", "t6", "t7", "t8", "t9"],
+        # bursts: several hand-offs in the self pipe / several tasks in the run queue at once
+        # two fibers of one thread: 8 takes item 2 directly before the loop looks at the pipe that carries item 1 for fiber 7
+        # (per_thread_order_counterexample: got 8:2 before 7:1; each fiber still sees send order)
+        ["L100000", "t7", "g1:1+", "g2:2+", "t8!"],
+        # 24 pending readers, 24 gives in one run phase: 24 events in the self pipe at one poll (more than one batch of any
+        # plausible batched read), 24 resumptions queued in one turn
+        ["L100000"] + ["t%d+" % i for i in range(1, 24)] + ["t24!"] + ["g%d:%d+" % (100 + i, i) for i in range(1, 24)] + ["g124:24!"],
+        ["L2"] + ["g%d:%d+" % (i, i) for i in range(1, 8)] + ["g8:8!"] + ["t%d+" % (20 + i) for i in range(1, 8)] + ["t28!"],
     ]
 
 
@@ -84,8 +98,26 @@ def gen_sequence(rng):
             ops.append("g%d:%d" % (nf, nx))
             waiting.append(nf)
             nf += 1 + rng.below(2)
+    def burst(kind, cnt):
+        nonlocal nf, nx
+        out = []
+        for j in range(cnt):
+            suffix = "!" if j == cnt - 1 else "+"
+            k2 = kind if kind != "m" else ("t" if rng.chance(1, 2) else "g")
+            if k2 == "t":
+                out.append("t%d%s" % (nf, suffix))
+            else:
+                nx += 1
+                out.append("g%d:%d%s" % (nf, nx, suffix))
+            waiting.append(nf)
+            nf += 1
+        return out
     for _ in range(n):
         k = rng.below(100)
+        if not closed and rng.chance(1, 6):
+            # burst of 2..24 operations in one run phase (takers, givers or mixed)
+            ops += burst(rng.choice(["t", "g", "m", "m"]), rng.choice([2, 3, 4, 6, 9, 17, 24]))
+            continue
         if k < 35:
             ops.append("t%d" % nf)
             waiting.append(nf)
@@ -112,8 +144,9 @@ def compare(ctx, janet, exe, seqs, flags):
     """-> (diffs, number of compared lines, coverage dict)"""
     global impl_oracle_failures
     impl_oracle_failures = []
-    cfgtok = "%d %d %d %d %d" % (int(flags["requeueOnNoReader"]), int(flags["requeueAtHead"]), int(flags["redispatchToNext"]),
-                                 int(flags["cbChecksSchedId"]), int(flags.get("forwardOwnSchedId", True)))
+    cfgtok = "%d %d %d %d %d %d" % (int(flags["requeueOnNoReader"]), int(flags["requeueAtHead"]), int(flags["redispatchToNext"]),
+                                    int(flags["cbChecksSchedId"]), int(flags.get("forwardOwnSchedId", True)),
+                                    int(flags.get("loopBumpsSchedAtResume", False)))
     d = tempfile.mkdtemp(prefix="c08seq-", dir="/var/tmp")
     try:
         sp, jp = os.path.join(d, "seqs.txt"), os.path.join(d, "run.janet")
@@ -131,13 +164,18 @@ def compare(ctx, janet, exe, seqs, flags):
     model = ctx.model([cfgtok + " " + s[0][1:] + " " + " ".join(s[1:]) for s in seqs], exe=exe)
     diffs = []
     cov = {"ops": 0, "abandon": 0, "close": 0, "stale_hits": 0}
-    for s, a, b in zip(seqs, impl, model):
+    for s0, a, b in zip(seqs, impl, model):
+        s = [o.rstrip("+!") for o in s0]
+        nb = sum(1 for o in s0 if o.endswith("!"))
+        cov["bursts"] = cov.get("bursts", 0) + nb
+        cov["burst_ops"] = cov.get("burst_ops", 0) + sum(1 for o in s0 if o.endswith("+") or o.endswith("!"))
+        cov["max_burst"] = max(cov.get("max_burst", 0), max([0] + [len(g) for g in " ".join("B" if (o.endswith("+") or o.endswith("!")) else "." for o in s0).replace(" ", "").split(".")]))
         cov["ops"] += len(s) - 1
         cov["parked_writer_histories"] = cov.get("parked_writer_histories", 0) + (1 if " g=" in a and s[0] != "L100000" else 0)
         cov["abandon"] += sum(1 for o in s if o[0] == "a")
         cov["close"] += sum(1 for o in s if o == "c")
         if a != b:
-            diffs.append({"ops": " ".join(s), "impl": a, "model": b})
+            diffs.append({"ops": " ".join(s0), "impl": a, "model": b})
         # direct oracle on the implementation trace (no model involved)
         if "c" not in s and a != b:
             pass
@@ -145,7 +183,7 @@ def compare(ctx, janet, exe, seqs, flags):
             try:
                 int(a.split(" ; ")[-1].split(" ")[0]); a.split(" ; ")[-1].split(" d=")[1]
             except (ValueError, IndexError):
-                impl_oracle_failures.append({"sig": "malformed-receipt", "ops": " ".join(s), "observed": a, "why": "single-loop history `%s`: unparsable observation %r" % (" ".join(s), a[:200])})
+                impl_oracle_failures.append({"sig": "malformed-receipt", "ops": " ".join(s0), "observed": a, "why": "single-loop history `%s`: unparsable observation %r" % (" ".join(s0), a[:200])})
                 continue
             given = [o.split(":")[1] for o in s if o[0] == "g"]
             cnt = 0
@@ -154,11 +192,14 @@ def compare(ctx, janet, exe, seqs, flags):
             dl = last.split(" d=")[1].split(" w=")[0]
             deliv = [p.split(":")[1] for p in dl.split(",") if p]
             if len(set(deliv)) != len(deliv):
-                impl_oracle_failures.append({"sig": "duplicate", "ops": " ".join(s), "observed": a, "why": "an item was delivered twice in single-loop history `%s`" % " ".join(s)})
+                impl_oracle_failures.append({"sig": "duplicate", "ops": " ".join(s0), "observed": a, "why": "an item was delivered twice in single-loop history `%s`" % " ".join(s0)})
             elif cnt + len(deliv) != len(given):
-                impl_oracle_failures.append({"sig": "lost-stale-reader", "ops": " ".join(s), "observed": a,
-                                             "why": "single-loop history `%s`: %d item(s) given, %d delivered, ev/count %d: %d item(s) vanished after being handed to a reader that had abandoned its wait"
-                                                    % (" ".join(s), len(given), len(deliv), cnt, len(given) - cnt - len(deliv))})
+                has_ab = any(o[0] == "a" for o in s)
+                impl_oracle_failures.append({"sig": "lost-stale-reader" if has_ab else "lost-handoff", "ops": " ".join(s0), "observed": a,
+                                             "why": ("single-loop history `%s`: %d item(s) given, %d delivered, ev/count %d: %d item(s) vanished after being handed to a reader that had abandoned its wait"
+                                                     if has_ab else
+                                                     "single-loop history `%s`: %d item(s) given, %d delivered, ev/count %d: %d item(s) handed to waiting readers never arrived although the loop ran 16 more turns (no wait was abandoned)")
+                                                    % (" ".join(s0), len(given), len(deliv), cnt, len(given) - cnt - len(deliv))})
                 cov["stale_hits"] += 1
             else:
                 # liveness at quiescence: every item beyond the capacity accounts for at most one parked writer, and every
@@ -170,9 +211,9 @@ def compare(ctx, janet, exe, seqs, flags):
                     gave_up = set(o[1:] for o in s if o[0] == "a")
                     parked = [o[1:].split(":")[0] for o in s if o[0] == "g" and o[1:].split(":")[0] not in gdone and o[1:].split(":")[0] not in gave_up]
                     if len(parked) > max(0, cnt - limit):
-                        impl_oracle_failures.append({"sig": "writer-never-resumed", "ops": " ".join(s), "observed": a,
+                        impl_oracle_failures.append({"sig": "writer-never-resumed", "ops": " ".join(s0), "observed": a,
                                                      "why": "single-loop history `%s`: giver fiber(s) %s still blocked in ev/give although the channel holds %d item(s) (capacity %d): "
-                                                            "the wake-up was lost after an earlier parked giver abandoned its wait" % (" ".join(s), ",".join(parked), cnt, limit)})
+                                                            "the wake-up was lost after an earlier parked giver abandoned its wait" % (" ".join(s0), ",".join(parked), cnt, limit)})
                 except (ValueError, IndexError):
                     pass
     return diffs, len(seqs), cov
